@@ -320,7 +320,11 @@ class Checker(object):
         elif kind.startswith('smtlib_'):
             plan.insert(0, ('reparse', 0))
             plan.insert(1, ('reparse', 1))
-        frng_state = rng.getstate()
+        self.run_twins(j, rep.shard, target, bps, kind, prefix, plan)
+
+    def run_twins(self, j, shard, target, bps, kind, prefix, plan):
+        from pysmt.environment import Environment, push_env, pop_env
+        rep = self.rep
         results = {}
         failed = None
         wstate = []
@@ -334,7 +338,7 @@ class Checker(object):
                     return
                 self.probe_all(env, ctx, pool, prefix)
                 if which == 'A':
-                    r2 = random.Random(j * 1009 + rep.shard)
+                    r2 = random.Random(j * 1009 + shard)
                     failed = self.failing_call(kind, env, ctx, pool, r2)
                     if failed is None:
                         rep.count('failing_call_not_applicable')
@@ -361,7 +365,9 @@ class Checker(object):
                     'without the failing call %s' % (
                         kind, failed[1], pa[0], pa[1], str(pa[2])[:200],
                         str(pb[2])[:200]),
-                    {'bp': B.to_json(target), 'kind': kind})
+                    {'bp': B.to_json(target), 'kind': kind, 'j': j,
+                     'shard': shard, 'bps': [B.to_json(x) for x in bps],
+                     'prefix': prefix, 'plan': plan})
                 break
         if wstate:
             rep.violation('%s/walker-state/%s' % (PROP, kind.split(':')[0]),
@@ -575,5 +581,13 @@ def run(rep):
 
 
 def replay(case, rep):
+    c = case.get('case') or {}
+    if 'bps' in c:
+        ck = Checker(rep)
+        bps = [B.from_json(x) for x in c['bps']]
+        ck.run_twins(c['j'], c['shard'], bps[0], bps, c['kind'],
+                     [tuple(x) for x in c['prefix']],
+                     [tuple(x) for x in c['plan']])
+        return
     rep.only = None
     run(rep)
